@@ -829,4 +829,13 @@ def generate(rng, tier="quick", **knobs):
     g = Gen(rng, tier, **knobs)
     g.module()
     g.edits()
+    # (drawn last, so that everything above is generated as before)
+    p = knobs.get("bystander_p", 0.12)
+    if p and rng.random() < p:
+        if rng.random() < 0.7:
+            g.case["bystander"] = "twin"
+        else:
+            g2 = Gen(rng, tier, empty_blocks_p=0)
+            g2.module()
+            g.case["bystander"] = g2.case
     return g.case
